@@ -679,6 +679,8 @@ func runC07(w *World, r *Report) {
 				"a stream can leave the run-time checker as it came (a fast path on the reader's chunk type, nil-ness, …): the chunk type of the OBJECT travelling over an interface-declared edge is whatever the producer made — a pass-through or a sub-graph with an `any` input forwards a StreamReader[string] untouched — so a non-assignable stream reaches the concretely typed consumer and panics there in Stream / Transform mode while Invoke reports the ordinary 'runtime type check fail' error")
 		})
 	}
+	inputKeyNarrowingChecked(w, r, "C07.converter-is-checker")
+	unpackRefusalChecks(w, r, "C07.converter-is-checker")
 	// pass-through nodes: a state handler on a node whose own type is only inferred later must be typed `any` exactly
 	// (the handler is never re-checked against the inferred type)
 	{
